@@ -4,8 +4,11 @@
 # Prints one line per check: <id> rc=<exit code> violations=<n> first-key=<...>
 patch=$1; ids=$2; tier=${3:-quick}
 cd /repo || exit 2
-# a background `vp run` rebuilds from /repo's working tree: never patch /repo while one is running
-if command -v vp >/dev/null && vp runs 2>/dev/null | grep -q "^#[0-9]* *running"; then echo "a vp run is active (it builds from /repo); refusing to patch /repo now"; exit 2; fi
+# checks (also background `vp run` jobs) build from /repo's working tree under a shared lock; hold the exclusive lock while the
+# seeded change is applied so that it can never leak into an unrelated concurrent build
+exec 9>>/tmp/.verif_repo_lock
+flock -x 9
+export VERIF_REPO_LOCK_HELD=1
 if ! git diff --quiet; then echo "/repo has uncommitted changes; refusing"; exit 2; fi
 git apply "$patch" || { echo "patch does not apply"; exit 2; }
 trap 'git -C /repo checkout -- . >/dev/null 2>&1' EXIT
